@@ -356,14 +356,15 @@ func (i *Domain) approximateStamp(
 		i.L.DPanic("iterator prev failed in stamp")
 		return TimeStampApproximation{}, NewDiscontinuousOffsetError(endOffset, effectiveDomainLen)
 	}
-	if err = r.Close(); err != nil {
+	// The caller owns r and closes it. The previous domain is read through a reader of
+	// its own that is released before returning: a reader that is never closed holds
+	// its file descriptor for good, and once the pool is exhausted every read waits.
+	prev, err := iter.OpenReader(ctx)
+	if err != nil {
 		return TimeStampApproximation{}, err
 	}
-	if r, err = iter.OpenReader(ctx); err != nil {
-		return TimeStampApproximation{}, err
-	}
-	lowerTS, err := readStamp(r, iter.Size()+lowerTSByteOffset)
-	return Between(lowerTS, upperTS), err
+	lowerTS, err := readStamp(prev, iter.Size()+lowerTSByteOffset)
+	return Between(lowerTS, upperTS), errors.Combine(err, prev.Close())
 }
 
 // BackwardStamp calculates an approximate starting timestamp for a range given a known distance
